@@ -398,3 +398,8 @@ RULES = [
     Rule("C13.V6", rule_V6, floor=1, doc="node list"),
     Rule("C13.V7", rule_V7, floor=2, doc="manhattan_distance and lattice_max_degrees"),
 ]
+
+from sa import dims as _dims  # noqa: E402
+
+RULES.append(Rule("C13.AX", _dims.make_rule("C13", "C13.AX"), floor=1,
+                  doc="axis-extent agreement: coordinate components are bounded by the extent of their own axis (E13)"))
